@@ -273,5 +273,5 @@ Qed.
 
 (** the rule fires inside a function body: (fn* [x] (do 1 x)) *)
 Example copt_nonvacuous :
-  let '(d, _, _, _) := cgen (fun _ => None) 0%N (CFn [0%N] (CDo (CConst (KInt 1)) (CLocal 0%N))) in copt d <> d.
+  let '(d, _, _, _) := cgen (fun _ => None) 0%N (CFn None [0%N] (CDo (CConst (KInt 1)) (CLocal 0%N))) in copt d <> d.
 Proof. vm_compute. discriminate. Qed.
